@@ -27,6 +27,30 @@ pub fn steps() -> u64 {
     STEPS.with(|s| s.get())
 }
 
+thread_local! {
+    static TRACE: std::cell::RefCell<Option<Vec<[u64; 4]>>> = const { std::cell::RefCell::new(None) };
+}
+
+/// Start recording step events (one per arm of an instrumented loop) on the calling thread.
+pub fn arm_trace() {
+    TRACE.with(|t| *t.borrow_mut() = Some(Vec::new()));
+}
+
+/// Stop recording and return the step events recorded since `arm_trace`.
+pub fn take_trace() -> Vec<[u64; 4]> {
+    TRACE.with(|t| t.borrow_mut().take().unwrap_or_default())
+}
+
+/// Record one step event `[arm, a, b, c]` if recording is armed on the calling thread.
+#[inline]
+pub fn record(arm: u64, a: usize, b: usize, c: usize) {
+    TRACE.with(|t| {
+        if let Some(v) = t.borrow_mut().as_mut() {
+            v.push([arm, a as u64, b as u64, c as u64]);
+        }
+    });
+}
+
 /// Decode one domain name starting at `at` in `buf`, returning the name and the
 /// cursor position at which parsing of the enclosing element would resume.
 pub fn parse_name(buf: &[u8], at: usize) -> crate::Result<(Name<'_>, usize)> {
